@@ -617,6 +617,10 @@ def run(tier):
             pick = allsig
         for sg in dict.fromkeys(pick):
             tasks.append(('A', (a, sg)))
+        from .c03_arb import LINEAR_PARTS
+        for mname in LINEAR_PARTS:
+            for sg in dict.fromkeys(pick[:3] if tier == 'quick' else allsig):
+                tasks.append(('A', (a, sg, mname)))
     nfd = 16 if tier == 'quick' else 400
     tasks += [('D', seed_value() * 7 + i) for i in range(nfd)]
     for r in run_pool(dispatch, tasks):
